@@ -100,6 +100,18 @@ func NewConn(s *Store, name string) *Conn {
 	return c
 }
 
+// Retarget points an idle connection at another store (a batching pool kept alive across the
+// executions of one bubble serves a fresh backend in each of them) and forgets per-execution
+// bookkeeping.
+func (c *Conn) Retarget(s *Store) {
+	c.mu.Lock()
+	defer c.mu.Unlock()
+	c.S = s
+	c.NReq = 0
+	c.Faults = nil
+	c.BadRequest = false
+}
+
 // Stalled reports whether a Write is blocked on a full send buffer.
 func (c *Conn) Stalled() bool { c.mu.Lock(); defer c.mu.Unlock(); return c.stallCh != nil }
 
